@@ -88,6 +88,13 @@ def opt(t):
     return T("option", t)
 
 
+def strip_t(t):
+    out = {"prim": t["prim"]}
+    if t.get("args"):
+        out["args"] = [strip_t(x) if isinstance(x, dict) and "prim" in x else x for x in t["args"]]
+    return out
+
+
 NO_VALUE = ("<no value>",)
 
 
@@ -359,6 +366,22 @@ class Machine:
         self.ty(body_t is None or body_t == [rt], "LAMBDA body type %s != [%s]" % (body_t, rt))
         return [(T("lambda", at, rt), {"code": code, "applied": []} if self.concrete else ABS)] + st
 
+    def i_LAMBDA_REC(self, a, st):
+        at, rt, code = a
+        lt = T("lambda", at, rt)
+        body_t = self.block_types(code, [(at, ABS), (lt, ABS)])  # the body sees its argument and the lambda itself
+        self.ty(body_t is None or body_t == [rt], "LAMBDA_REC body type %s != [%s]" % (body_t, rt))
+        return [(lt, {"code": code, "applied": [], "rec": lt} if self.concrete else ABS)] + st
+
+    def i_CAST(self, a, st):
+        self.need(st, 1, "CAST")
+        self.ty(strip_t(a[0]) == st[0][0], "CAST to another type")
+        return st
+
+    def i_RENAME(self, a, st):
+        self.need(st, 1, "RENAME")
+        return st
+
     def i_EXEC(self, a, st):
         self.need(st, 2, "EXEC")
         lt = st[1][0]
@@ -370,7 +393,10 @@ class Machine:
         arg, at = st[0][1], st[0][0]
         for (pt, pv) in reversed(lam["applied"]):
             arg, at = (pv, arg), T("pair", pt, at)
-        out = self.run(lam["code"], [(at, arg)])
+        if lam.get("rec"):
+            out = self.run(lam["code"], [(at, arg), (lam["rec"], {"code": lam["code"], "applied": [], "rec": lam["rec"]})])
+        else:
+            out = self.run(lam["code"], [(at, arg)])
         return [(rt, out[0][1])] + st[2:]
 
     def i_APPLY(self, a, st):
@@ -383,7 +409,7 @@ class Machine:
         if not self.concrete:
             return [(nt, ABS)] + st[2:]
         lam = st[1][1]
-        return [(nt, {"code": lam["code"], "applied": lam["applied"] + [(pa, st[0][1])]})] + st[2:]
+        return [(nt, dict(lam, applied=lam["applied"] + [(pa, st[0][1])]))] + st[2:]
 
     # ---- data ---------------------------------------------------------------------------------------
     def i_PAIR(self, a, st):
